@@ -91,6 +91,19 @@ fn trial_fraction<const U16: bool>(params: SetSketchParams, n0: usize, n1: usize
     b.extend_from_slice(&ids[n0 + n1..]);
     shuffle(&mut a, rng);
     shuffle(&mut b, rng);
+    // half of the trials stream the sets with repeated items (right away, and spread)
+    if rng.random_range(0..2) == 0 && !a.is_empty() && !b.is_empty() {
+        let n = a.len().min(200);
+        for i in 0..n / 3 + 1 {
+            let x = a[i];
+            a.insert(i + 1, x);
+        }
+        for _ in 0..b.len().min(200) / 3 + 1 {
+            let x = b[rng.random_range(0..b.len())];
+            let p = rng.random_range(0..=b.len());
+            b.insert(p, x);
+        }
+    }
     if U16 {
         trial_body!(u16, params, a, b, reuse, rng)
     } else {
